@@ -114,6 +114,8 @@ fn scenario(c: &C07Case, out: Arc<Mutex<Outcome>>) {
     o.failed_blocks = shared.failed_blocks.iter().map(|a| a.load(Ordering::SeqCst)).collect();
 }
 
+static ABANDONED: std::sync::atomic::AtomicUsize = std::sync::atomic::AtomicUsize::new(0);
+
 impl Prop for C07 {
     type Case = C07Case;
     fn id(&self) -> &'static str {
@@ -134,12 +136,19 @@ impl Prop for C07 {
         tier.pick(1_500, 40_000)
     }
     fn run(&self, case: &C07Case, ctx: &mut Ctx) {
+        if ABANDONED.load(Ordering::Relaxed) >= 200 {
+            ctx.skip("enough abandoned (non-terminating / deadlocked) executions recorded in this run");
+            return;
+        }
         let out = Arc::new(Mutex::new(Outcome::default()));
         let (c2, o2) = (case.clone(), out.clone());
         let ex = explore(&case.decisions, 3_000_000, move || scenario(&c2, o2.clone()));
         let runner = if case.mt { "MTGraph" } else { "Graph" };
         let o = out.lock().unwrap();
         ctx.class(format!("runner={runner} fault={}", match case.fault { Fault::Cancel { .. } => "cancel", Fault::Fail { .. } => "fail", Fault::Both { .. } => "cancel+fail", Fault::FailMany { .. } => "fail-many" }));
+        if ex.step_bound_hit || ex.deadlock {
+            ABANDONED.fetch_add(1, Ordering::Relaxed);
+        }
         if let Some(pi) = &ex.panic {
             if ex.step_bound_hit {
                 if ex.fair_steps > 1_500_000 {
